@@ -27,6 +27,9 @@ func pickType(r *plan.Rng, list []string) string {
 	if r.Chance(1, 6) {
 		return fmt.Sprintf("G%04d", r.Intn(len(genTypes)))
 	}
+	if r.Chance(1, 12) {
+		return reflectTypeNames[r.Intn(len(reflectTypeNames))]
+	}
 	return list[r.Intn(len(list))]
 }
 
@@ -104,6 +107,12 @@ func docFor(r *plan.Rng, t string, mutateNum, mutateDen int) []byte {
 	doc := stdDoc(ti, int64(r.U64()>>8))
 	if r.Chance(1, 12) {
 		doc = []byte(shortDocs[r.Intn(len(shortDocs))])
+	}
+	if r.Chance(1, 8) {
+		doc = dupKeys(doc, stdDoc(ti, int64(r.U64()>>8)))
+	}
+	if r.Chance(1, 10) {
+		doc = escapeKey(doc, r)
 	}
 	if r.Chance(mutateNum, mutateDen) {
 		doc = mutate(doc, r)
